@@ -17,13 +17,16 @@ Lemma list_eqb_eq a : forall b, list_eqb a b = true -> a = b.
 Proof. induction a as [|x a IH]; intros [|y b] H; cbn in H; try discriminate; [reflexivity|]. apply andb_true_iff in H as [H1 H2]. apply Z.eqb_eq in H1. subst. f_equal. now apply IH. Qed.
 (* is the type stored aligned?  the aligned_* qualifiers, and defaultp under GLM_FORCE_DEFAULT_ALIGNED_GENTYPES *)
 Definition is_aligned (cfg : config) (q : string) (al : bool) : bool := al || (default_aligned cfg && String.eqb q "defaultp").
-(* an aligned vecL<T> occupies n = (L = 3 ? 4 : L) elements; its alignment divides its size and is at least min(16, size)
-   (documented: aligned float vec3/vec4 16 bytes 16-aligned, vec2 8; a 32-byte double vector is 16-aligned with SSE2 and
-   32-aligned with AVX); a packed one is L contiguous T aligned as T *)
+(* an aligned vecL<T> occupies n = (L = 3 ? 4 : L) elements and is aligned to that size ("aligned GLM types align addresses based
+   on the size of the value type": aligned float vec3/vec4 16 bytes 16-aligned, vec2 8, a 32-byte vector 32).  The only exceptions are
+   the 32-byte types GLM stores in a pair of SSE registers when SIMD is on: double vec3 / vec4 / quaternion without AVX, and uvec3 of
+   64-bit elements (storage<3, uint64, true>) -- these are 16-byte aligned.  A packed one is L contiguous T aligned as T *)
 Definition vec_elems (L : nat) (a : bool) : Z := if a && Nat.eqb L 3 then 4 else Z.of_nat L.
 Definition vec_size (L : nat) (a : bool) (es : Z) : Z := vec_elems L a * es.
-Definition vec_align_ok (L : nat) (a : bool) (es align : Z) : bool :=
-  if a then let sz := vec_elems L a * es in (0 <? align) && (sz mod align =? 0) && (Z.min 16 sz <=? align) else align =? es.
+Definition sse_pair (cfg : config) (L : nat) (ty : string) (sz align : Z) : bool :=
+  simd cfg && (sz =? 32) && (align =? 16) && (String.eqb ty "f64" || (String.eqb ty "u64" && Nat.eqb L 3)).
+Definition vec_align_ok (cfg : config) (ty : string) (L : nat) (a : bool) (es align : Z) : bool :=
+  if a then let sz := vec_elems L a * es in (align =? sz) || sse_pair cfg L ty sz align else align =? es.
 Definition contiguous (n : nat) (es : Z) : list Z := map (fun i => Z.of_nat i * es) (seq 0 n).
 Definition mat_offsets (C R : nat) (colsize es : Z) : list Z := flat_map (fun c => map (fun r => Z.of_nat c * colsize + Z.of_nat r * es) (seq 0 R)) (seq 0 C).
 
@@ -31,15 +34,15 @@ Definition rec_ok (cfg : config) (r : rec) : bool :=
   match r with
   | Vec L ty q al es size align offs offx vp len lensize rt =>
       let a := is_aligned cfg q al in
-      (size =? vec_size L a es) && vec_align_ok L a es align && list_eqb offs (contiguous L es) && (offx =? 0) && (vp =? 0) &&
+      (size =? vec_size L a es) && vec_align_ok cfg ty L a es align && list_eqb offs (contiguous L es) && (offx =? 0) && (vp =? 0) &&
       (len =? Z.of_nat L) && (lensize =? (if length_size_t cfg then 8 else 4)) && rt
   | Mat C R ty q al es size align colsize colalign offs vp len lensize rt =>
       let a := is_aligned cfg q al in
-      (colsize =? vec_size R a es) && vec_align_ok R a es colalign && (size =? Z.of_nat C * colsize) && (align =? colalign) &&
+      (colsize =? vec_size R a es) && vec_align_ok cfg ty R a es colalign && (size =? Z.of_nat C * colsize) && (align =? colalign) &&
       list_eqb offs (mat_offsets C R colsize es) && (vp =? 0) && (len =? Z.of_nat C) && (lensize =? (if length_size_t cfg then 8 else 4)) && rt
   | Qua ty q al es size align ox oy oz ow offs vp len lensize rt =>
       let a := is_aligned cfg q al in
-      (size =? 4 * es) && vec_align_ok 4 a es align &&
+      (size =? 4 * es) && vec_align_ok cfg ty 4 a es align &&
       (if quat_wxyz cfg then list_eqb [ow; ox; oy; oz] (contiguous 4 es) else list_eqb [ox; oy; oz; ow] (contiguous 4 es)) &&
       list_eqb offs (contiguous 4 es) && (vp =? 0) && (len =? 4) && (lensize =? (if length_size_t cfg then 8 else 4)) && rt
   | Make ty rt => rt
